@@ -211,3 +211,19 @@ package slayers
 //@   props C21
 //@   modifies nothing
 //@   ensures result == ite(p&(1<<16) == 0, PacketAuthSenderSide, PacketAuthReceiverSide)
+
+//@ # ---- PackAddr (used by the DRKey input serializers, C39): the netip conversions are not interpreted. The
+//@ # packed form of a host is named by spec functions of the host value (PackAddr is deterministic); assumed:
+//@ # it is 4 bytes (IPv4, service) or 16 bytes (IPv6) and the type says which.
+//@ spec func packedOK(h addr.Host) bool uninterpreted
+//@ spec func packedType(h addr.Host) AddrType uninterpreted
+//@ spec func packedLen(h addr.Host) int uninterpreted
+//@ spec func packedByte(h addr.Host, j int) uint8 uninterpreted
+//@ func PackAddr
+//@   trusted
+//@   modifies nothing
+//@   ensures (result2 == nil) == packedOK(host)
+//@   ensures result2 == nil ==> fresh(result1)
+//@   ensures result2 == nil ==> result0 == packedType(host) && len(result1) == packedLen(host)
+//@   ensures result2 == nil ==> forall j int :: 0 <= j && j < len(result1) ==> result1[j] == packedByte(host, j)
+//@   ensures result2 == nil ==> (len(result1) == 4 && (result0 == T4Ip || result0 == T4Svc)) || (len(result1) == 16 && result0 == T16Ip)
